@@ -293,3 +293,61 @@ class BuiltinPermutation(Contract):
             a, b = np.take(M0, l0.index(lab), axis=-1), np.take(M1, l1.index(lab), axis=-1)
             cells += [L.eq(x, y) for x, y in zip(np.asarray(a, dtype=object).reshape(-1), np.asarray(b, dtype=object).reshape(-1))]
         yield "column_reported_under_a_label_is_independent_of_declaration_order", L.and_(*cells)
+
+
+class LinkedClpLabels(Contract):
+    """Estimated clps are reported under their labels for linked datasets that declare their megacomplexes
+    (hence labels) in different orders and overlap only partially - the C03 result obligations restricted
+    to the label-carrying ones, on configurations chosen for label order."""
+
+    prop = "C06"
+    name = "LinkedClpLabels"
+    target = "glotaran.optimization.matrix_provider:MatrixProviderLinked.align_full_clp_labels"
+    functions = ("glotaran.optimization.estimation_provider:EstimationProviderLinked.get_result", "glotaran.optimization.matrix_provider:MatrixProviderLinked.align_matrices")
+    strength = "S"
+    agreement_runs = 0
+
+    def _inner(self):
+        from contracts.c03_results import ResultData
+
+        return ResultData()
+
+    @property
+    def modules(self):
+        return self._inner().modules
+
+    @property
+    def trusted(self):
+        return self._inner().trusted
+
+    def cases(self, tier):
+        from contracts.configs import M2, M2D, VP
+
+        T2, T3 = (0.0, 1.0, 3.0), (0.0, 1.0, 2.5, 4.0)
+        cfgs = []
+        for k, (o1, o2, o3) in enumerate(itertools.product((("m1", "m2"), ("m2", "m1")), repeat=3)):
+            cfgs.append(Cfg(f"label_order_{k}", (DS("d1", T2, (0.0, 1.0), megacomplexes=o1), DS("d2", T2, (1.0, 2.0), megacomplexes=o2, scale=True), DS("d3", T3, (2.0, 3.0), megacomplexes=o3)), megacomplexes=M2 if k % 2 == 0 else M2D, groups={"default": (True, VP)}))
+        cfgs.append(Cfg("label_order_single_mc", (DS("d1", T2, (0.0, 1.0), megacomplexes=("m1",)), DS("d2", T2, (1.0, 2.0), megacomplexes=("m2", "m1")), DS("d3", T3, (2.0, 3.0), megacomplexes=("m2",))), megacomplexes=M2, groups={"default": (True, VP)}))
+        for c in cfgs:
+            yield {"cfg": c.name, "_cfg": c}
+
+    def case_id(self, case):
+        return f"cfg={case['cfg']}"
+
+    def build(self, S, case):
+        return self._inner().build(S, case)
+
+    def call(self, S, case, b):
+        return self._inner().call(S, case, b)
+
+    def observe(self, out):
+        return None
+
+    def ensures(self, S, case, b, out):
+        n = 0
+        for name, cond in self._inner().ensures(S, case, b, out):
+            if name.startswith(("clps_by_label", "fitted_data_is_scale_matrix_clp", "matrix_and_clp_share_labels", "no_exception", "number_of_linear_solves")):
+                n += 1
+                yield name, cond
+        if n == 0:
+            yield "label_obligations_generated", False
